@@ -192,6 +192,10 @@ def run_engine(ctx: Ctx) -> dict:
     for nm, boxed in [("chain2_2x1_all", "@a,^b"), ("multiout_2x1_sinks", "^g,@u"), ("diamond_2x1_src_sink", "^s,@m1,^k")]:
         if nm in by_name:
             jobs.append((by_name[nm], 0, boxed))
+    # the recorded job is the second one of its process, after a job with the same task names and other callables
+    for nm, v in [("chain2_2x1_all", "2nd+~a,~b"), ("multiout_2x1_sinks", "2nd+~g,~u,~v"), ("diamond_1x2_sink", "2nd+~s,~m1,~m2,~k")]:
+        if nm in by_name:
+            jobs.append((by_name[nm], 0, v))
     with ThreadPoolExecutor(max_workers=JVM_SLOTS + 1) as tp:
         res["traces"] = list(tp.map(job_tr, jobs))
     ctx.log(f"cascade engine: {sum(t['n'] for t in res['traces'])} executions recorded and validated in {time.time()-t1:.0f}s")
